@@ -36,7 +36,7 @@ impl Prop for C11 {
          alone (get_nodes -> Node::restore_node) and compared with the running signer: per channel ids, setup and the whole \
          EnforcementState (counters, commitment contents, points, secrets, closed flag), the persisted tracker entry (tip, height, header \
          window, every monitor state and watch set), allowlist, approved invoices, channel-id high-water mark. Non-trivial: steps whose \
-         request changed at least one compared field; distinct by (request kind, changed component)."
+         request changed at least one compared field; distinct by (request kind, changed components, abstract counters of the two channels before the request, store kind)."
             .into()
     }
     fn assumptions(&self) -> Vec<String> {
@@ -49,7 +49,7 @@ impl Prop for C11 {
         tier.pick(120, 2500)
     }
     fn min_nontrivial(&self, tier: Tier) -> usize {
-        tier.pick(30, 60)
+        tier.pick(100, 400)
     }
     fn strategy(&self, tier: Tier) -> BoxedStrategy<Case> {
         let n = tier.pick(30usize, 80usize);
@@ -70,7 +70,10 @@ impl Prop for C11 {
                     prim.push(Op::CSign { ch: *ch, d: 0, wrong_point: false, c: c.clone(), phase1: false });
                     prim.push(Op::CRevoke { ch: *ch, d: 0, sec: SecSel::Matching });
                 }
-                o => prim.push(o.clone()),
+                o => match expand_macro(o) {
+                    Some(ps) => prim.extend(ps),
+                    None => prim.push(o.clone()),
+                },
             }
         }
         let mut prev = observe(&m.w.node);
@@ -79,6 +82,9 @@ impl Prop for C11 {
                 st.class("history_truncated_after_abort");
                 break;
             }
+            let counters: Vec<(u64, u64, u64)> = (0..2).map(|ci| {
+                m.w.node.with_channel(&m.w.chans[ci].id0, |c| Ok((c.enforcement_state.next_holder_commit_num.min(2), c.enforcement_state.next_counterparty_commit_num.min(2), c.enforcement_state.next_counterparty_revoke_num.min(2)))).unwrap_or((0, 0, 0))
+            }).collect();
             let results = m.step(op);
             let Some(r) = results.last() else { continue };
             st.class(format!("{}:{}", r.kind, r.tag));
@@ -139,7 +145,9 @@ impl Prop for C11 {
             }
             if let Some(c) = changed.first() {
                 st.class("step_changed_compared_state");
-                st.nontrivial_shape((r.kind, strip_ids(c), case.cloud));
+                let comps: Vec<String> = changed.iter().map(|c| strip_ids(c)).collect();
+                let _ = c;
+                st.nontrivial_shape((r.kind, comps, counters.clone(), case.cloud));
             }
             prev = live;
         }
